@@ -188,8 +188,8 @@ func VerifyBlindedSignature(blinded, original destination.Destination, alpha [32
 // the 32-byte signing public key.
 func extractEd25519SigningKey(dest destination.Destination) ([32]byte, error) {
 	var result [32]byte
-	if dest.KeyCertificate.SigningPublicKeyType() != key_certificate.KEYCERT_SIGN_ED25519 {
-		return result, oops.Errorf("destination does not use Ed25519")
+	if err := validateBlindingSigType(dest); err != nil {
+		return result, err
 	}
 	key, err := dest.SigningPublicKey()
 	if err != nil {
